@@ -65,6 +65,7 @@ class ProgressBar(object):
         self._min_seconds_between_redraws = 0
         self._max_seconds_between_redraws = 1
         self._write_count = 0
+        self._displayed_step = None
 
         if min_seconds_between_redraws > 0:
             self.redraw_freq = None
@@ -224,7 +225,12 @@ class ProgressBar(object):
         if not self._max:
             self._max = self._step
 
-        if self._step == self._max and not self._should_overwrite:
+        if (
+            self._step == self._max
+            and not self._should_overwrite
+            and self._displayed_step == self._step
+        ):
+            # The final step is already shown: prevent double 100% output
             return
 
         self.set_progress(self._max)
@@ -248,6 +254,7 @@ class ProgressBar(object):
                 self._format,
             )
         )
+        self._displayed_step = self._step
 
     def _overwrite_callback(self, matches):
         if hasattr(self, "_formatter_{}".format(matches.group(1))):
